@@ -11,7 +11,7 @@ allowed = {"propext", "Classical.choice", "Quot.sound"}
 src = os.path.join(lean, "Rdpgw", "Props", prop + ".lean")
 text = open(src).read()
 # companion files whose theorems belong to this property as well (imported by the property's file)
-EXTRA = {"C01": ["C01Facts"], "C16": ["C01Facts"]}
+EXTRA = {"C01": ["C01Facts"], "C16": ["C01Facts"], "C18": ["C18Facts"]}
 # strip comments (block comments may nest one level; good enough for our own files)
 def strip_comments(t):
     t = re.sub(r"/-.*?-/", "", t, flags=re.S)
